@@ -113,7 +113,7 @@ def run(ctx):
         if len(full) > 30000 or ctx.quick else full
     for hb, ha, eb, leaf in take:
         lf = (leaf, eb) if leaf in ENDPOINT_LEAVES else \
-            ("pre", 2) if leaf == "pre" else (leaf,)
+            ("pre", rng.choice([2, 4, 4, 5])) if leaf == "pre" else (leaf,)
         with_handlers = rng.random() < 0.25
         scenarios.append(dc.Scenario(
             before=hb, after=ha, leaf=lf,
@@ -138,6 +138,40 @@ def run(ctx):
                  {"scenario": sc.describe(), "trace": trace})
         ctx.count("b%d/a%d/%s" % (len(sc.before), len(sc.after), sc.leaf[0]))
         oracle(ctx, sc, ans, trace)
+    # the hook tables are the same for every request of an application:
+    # whatever was served before (the debug page lines the two tables up),
+    # the next request runs each hook once, in order, around the endpoint
+    from implrun import new_app, environ, call
+    for nb, na in ((1, 3), (0, 1), (3, 1), (2, 2)):
+        for first in ("/debug-info", "/x", "/nowhere"):
+            trace = []
+            app = new_app(debug=True)
+            for i in range(nb):
+                app.add_before_response(
+                    lambda req, i=i: trace.append(("B", i)))
+            for i in range(na):
+                def after(req, res, i=i):
+                    trace.append(("A", i))
+                    return res
+                app.add_after_response(after)
+
+            def endpoint(req):
+                trace.append(("E",))
+                return "ok"
+            app.set_route("/x", endpoint)
+            call(app, environ(path=first))
+            del trace[:]
+            ans = call(app, environ(path="/x"))
+            want = [("B", i) for i in range(nb)] + [("E",)] + \
+                [("A", i) for i in range(na)]
+            ctx.case(("sequence", nb, na, first), True,
+                     {"before": nb, "after": na, "first_request": first})
+            ctx.count("second-request")
+            if trace != want or ans.code != 200:
+                ctx.violation("hooks-differ-on-second-request", {
+                    "before_hooks": nb, "after_hooks": na,
+                    "first_request": first, "trace": trace,
+                    "status": ans.status})
     return ctx.finish(
         "product of 0-2 before hooks x 0-2 after hooks (6/7 behaviours each) "
         "x 12 endpoint behaviours x request kinds {static hit, pattern hit, "
